@@ -12,11 +12,15 @@ recursive-descent parser for the *expression*.  Grammar (nothing else is accepte
 
     expr   := or
     or     := and ('||' and)*                      and := cmp ('&&' cmp)*
-    cmp    := shift (('=='|'!='|'<'|'<='|'>'|'>=') shift)?          (non associative, as in Rust)
+    cmp    := xor (('=='|'!='|'<'|'<='|'>'|'>=') xor)?              (non associative, as in Rust)
+    xor    := shift ('^' shift)*                   (bool xor; only at sites that switch the feature "xor" on)
     shift  := add ('>>' add)*                      add := mul (('+'|'-') mul)*
     mul    := cast (('*'|'/'|'%') cast)*           cast := unary ('as' ('f64'|'i32'|'usize'))*
     unary  := ('-'|'!') unary | postfix
-    postfix:= primary ('.abs()' | '.powi(' expr ')')*
+    postfix:= primary ('.abs()' | '.powi(' expr ')'
+                      | '.exp()' | '.sqrt()'                       (features "exp"/"sqrt": UNINTERPRETED symbols Rat -> Rat)
+                      | '.unwrap_or(' expr ')' | '.unwrap_or_else(||' expr ')'    (feature "unwrap_or": Option.getD)
+                      )*
     primary:= float | int | 'true' | 'false' | ident | path-constant (std::f64::EPSILON, f64::EPSILON)
             | '(' expr ')' | '(' expr ',' expr ')'
             | 'max(' expr ',' expr ')' | 'min(' expr ',' expr ')'
@@ -33,6 +37,9 @@ recursive-descent parser for the *expression*.  Grammar (nothing else is accepte
 Types: f64 -> Rat (exact; rounding / NaN / inf / -0.0 are NOT modelled), usize -> Nat (`-` is truncated subtraction:
 Rust panics (debug) or wraps (release) where Nat gives 0), i32 -> Int (no overflow), bool -> Bool, (bool, bool) ->
 Bool × Bool.  `x as f64` / `x as i32` are the exact coercions Nat -> Rat / Nat -> Int (recorded as a note per site).
+A site may declare ONE parameter a *drawn value* (e.g. `rng.gen::<f64>()` rewritten to `gen_f64`): `<name>_draws : Nat` then
+counts its evaluations under Rust's evaluation order.  Compound assignments / loops are not in the grammar: a site's skeleton
+regex pins the statements literally and hands the captured right-hand side of `x += e;` to the parser as `x + (e)`.
 Every identifier must be in the site's declared environment; every site lists the receiver spellings it rewrites to
 variables (e.g. `manager.get_n()` -> `n`).  Integer `/` on Nat is floor division in both languages.
 
@@ -194,7 +201,7 @@ class Parser:
         self.site = site
         self.uninterp = set(uninterp)   # names of the site's uninterpreted function symbols
         # grammar extensions a site must switch on explicitly: "exp" / "sqrt" (method form of an uninterpreted symbol),
-        # "method_maxmin" (`a.max(b)`), "unwrap_or" (`opt.unwrap_or(d)` / `opt.unwrap_or_else(|| d)`), "xor" (`a ^ b` on bool)
+        # "unwrap_or" (`opt.unwrap_or(d)` / `opt.unwrap_or_else(|| d)`), "xor" (`a ^ b` on bool)
         self.features = set(features)
 
     def peek(self, k=0):
@@ -331,11 +338,6 @@ class Parser:
                 # `x.exp()` / `x.sqrt()`: application of the site's UNINTERPRETED symbol `exp` / `sqrt` : Rat -> Rat
                 self.expect("op", ")")
                 a = ("app", name, [a])
-            elif name in ("max", "min") and "method_maxmin" in self.features:
-                # method form `a.max(b)` (only at sites that declare it)
-                e = self.expr()
-                self.expect("op", ")")
-                a = (name, a, e)
             elif name == "unwrap_or" and "unwrap_or" in self.features:
                 # `opt.unwrap_or(default)` on a declared Option-typed variable (only at sites that declare it)
                 e = self.expr()
@@ -921,6 +923,8 @@ for _n in ("grow_cond", "grow_len", "insert_update_total", "insert_new_address",
     DEF_GROUP["bc_" + _n] = "BondContainer"
 for _n in ("mean", "center", "norm", "final", "spin_value_calculate_variable_autocorrelation", "spin_value_calculate_spin_product_autocorrelation"):
     DEF_GROUP["autocorr_" + _n] = "Autocorr"
+for _n in ("total_vars_next", "start_stop", "start_next", "exit_stop", "exit_next"):
+    DEF_GROUP["loop_" + _n] = "Loop"
 PRELUDE_DEFS = ["fabs", "EPSILON", "powi"]      # fixed text, group "Prelude"
 GROUPS = ["Prelude"] + sorted(set(DEF_GROUP.values()))
 
@@ -2018,6 +2022,48 @@ def extra_sites(g):
         need(src.body(src.fn("calculate_spin_product_autocorrelation", site)), "vs.iter() .map(|v| if sample[*v] { 1.0 } else { -1.0 }) .product()", AUTO + "::calculate_spin_product_autocorrelation")
 
     g.section(["Autocorr"], _a1)
+
+    # ---- L1. directed loop: start-leg walk and exit-leg selection -------------------------------------
+    def _l1():
+        LOOP = "src/sse/qmc_traits/directed_loop.rs"
+        src = g.file(LOOP)
+        site = LOOP + "::make_loop_update_with_rng"
+        f = src.fn("make_loop_update_with_rng", site)
+        fb = src.body(f)
+        base = f["body0"] + 1
+        sk = re.search(r"let mut total_vars = 0;\s*let mut next = self\.get_first_p\(\);\s*while let Some\(p\) = next \{\s*let node = self\.get_node_ref\(p\)\.unwrap\(\);\s*total_vars \+= ([^;]*);\s*next = self\.get_next_p\(node\);\s*\}\s*"
+                       r"let mut choice = rng\.gen_range\(0\.\.total_vars\);\s*let mut p = self\.get_first_p\(\)\.unwrap\(\);\s*loop \{\s*let node = self\.get_node_ref\(p\)\.unwrap\(\);\s*let n_vars = node\.get_op_ref\(\)\.get_vars\(\)\.len\(\);\s*"
+                       r"if ([^{]*?) \{\s*break \(p, choice\);\s*\}\s*choice -= ([^;]*);\s*p = self\.get_next_p\(node\)\.unwrap\(\);\s*\}", fb, re.S)
+        if not sk:
+            raise Unknown(site, "the start-leg skeleton `let mut total_vars = 0; … while let Some(p) = next { …; total_vars += …; next = self.get_next_p(node); } let mut choice = rng.gen_range(0..total_vars); "
+                                "let mut p = self.get_first_p().unwrap(); loop { …; let n_vars = node.get_op_ref().get_vars().len(); if <c> { break (p, choice); } choice -= …; p = self.get_next_p(node).unwrap(); }`")
+        CN = [("choice", "Nat"), ("n_vars", "Nat")]
+        g.translate("loop_total_vars_next", site, src, base + sk.start(1), "total_vars += " + sk.group(1),
+                    parse_expr("total_vars + (%s)" % rewrite(sk.group(1), [("node.get_op_ref().get_vars().len()", "n_vars")], site), site), [("total_vars", "Nat"), ("n_vars", "Nat")],
+                    "`total_vars += …` as `total_vars + (…)` (starts at 0; one term per operator); `n_vars` = `node.get_op_ref().get_vars().len()`", want="Nat")
+        g.translate("loop_start_stop", site, src, base + sk.start(2), sk.group(2), parse_expr(sk.group(2), site), CN,
+                    "start-leg walk: does the drawn `choice` fall on this operator (then the start is `(p, choice)`)", want="Bool")
+        g.translate("loop_start_next", site, src, base + sk.start(3), "choice -= " + sk.group(3), parse_expr("choice - (%s)" % sk.group(3), site), CN,
+                    "start-leg walk: `choice -= …` as `choice - (…)` before moving to the next operator", want="Nat")
+        need(fb, "let initial_direction = if rng.gen() { OpSide::Inputs } else { OpSide::Outputs };", site)
+        need(fb, "let initial_leg = (initial_var, initial_direction);", site)
+        site = LOOP + "::loop_body"
+        f = src.fn("loop_body", site)
+        fb = src.body(f)
+        base = f["body0"] + 1
+        sk = re.search(r"let total_weight: f64 = legs\.iter\(\)\.map\(\|\(_, w\)\| \*w\)\.sum\(\);\s*let choice = rng\.gen_range\(0\. \.\.total_weight\);\s*let exit_leg = legs\s*\.iter\(\)\s*"
+                       r"\.try_fold\(choice, \|c, \(leg, weight\)\| \{\s*if ([^{]*?) \{\s*Err\(\*leg\)\s*\} else \{\s*Ok\(([^)]*)\)\s*\}\s*\}\)\s*\.unwrap_err\(\);", fb, re.S)
+        if not sk:
+            raise Unknown(site, "the exit-leg skeleton `let total_weight: f64 = legs.iter().map(|(_, w)| *w).sum(); let choice = rng.gen_range(0. ..total_weight); let exit_leg = legs.iter()"
+                                ".try_fold(choice, |c, (leg, weight)| { if <c> { Err(*leg) } else { Ok(<next>) } }).unwrap_err();`")
+        CW = [("c", "Rat"), ("weight", "Rat")]
+        g.translate("loop_exit_stop", site, src, base + sk.start(1), sk.group(1), parse_expr(rewrite(sk.group(1), [("*weight", "weight")], site), site), CW,
+                    "exit-leg fold: is this leg the exit (`c` = the draw minus the weights passed); `weight` = `*weight`", want="Bool")
+        g.translate("loop_exit_next", site, src, base + sk.start(2), sk.group(2), parse_expr(rewrite(sk.group(2), [("*weight", "weight")], site), site), CW,
+                    "exit-leg fold: the value carried to the next leg", want="Rat")
+
+    g.section(["Loop"], _l1)
+
 
 
 def strip_debug_asserts(text, site):
